@@ -12,7 +12,7 @@ import Rustic.Lemmas.Packer
 import Rustic.Lemmas.ArchiveDedup
 import Rustic.Lemmas.SnapshotArchive
 import Rustic.Lemmas.TreeIter
-import Rustic.Lemmas.StreamerQueue
+import Rustic.Lemmas.StreamerQueueSafety
 import Rustic.Lemmas.LockNet
 namespace Rustic.Props.C13
 open Rustic.Tree Rustic.Parent Rustic.Archive
@@ -116,6 +116,22 @@ end Streamer
 
 section StreamerThreads
 open Rustic.StreamerQ
+
+/-- (1t) **Thread level, every schedule of consumer and loader threads, every capacity setting** (also the bounded
+counter-model: bounding the request queue breaks progress (1c), not what is yielded): at any moment the yielded trees are
+pairwise different and reachable; if the reachable trees are covered by `l` at most `l.length` trees are ever received
+(`recv` steps — with (1a') the run is finite); and when nothing is outstanding any more every reachable tree has been yielded.
+The loaders answer in whatever order the schedule lets them — the set of results does not depend on it. -/
+theorem treeStreamerOnce_threads_any_schedule (c : Cfg) (children : Nat → List Nat) (roots : List Nat) (acts : List Act) :
+    let s := runActs c children (init roots) acts
+    s.yielded.Nodup ∧ (∀ id ∈ s.yielded, Rustic.Streamer.Reach children roots id) ∧
+    (∀ l : List Nat, (∀ id, Rustic.Streamer.Reach children roots id → id ∈ l) → s.yielded.length ≤ l.length) ∧
+    (finished s = true → ∀ id, Rustic.Streamer.Reach children roots id → id ∈ s.yielded) := by
+  intro s
+  have hi : SInv children roots s := runActs_inv c acts _ (init_inv children roots)
+  exact ⟨inv_yielded_nodup hi, inv_yielded_reach hi,
+    fun l hl => Rustic.Streamer.nodup_subset_length _ l (inv_yielded_nodup hi) (fun x hx => hl x (inv_yielded_reach hi x hx)),
+    inv_finished_complete hi⟩
 
 /-- (1a) **The threads of `TreeStreamerOnce`, request queue `unbounded()` (the code as it is)** — consumer (`new` / `next`),
 any number `l > 0` of loader threads, result queue of any capacity `o > 0`, any forest: in EVERY state (reachable or not) in
